@@ -8,6 +8,128 @@
 #include <new>
 using namespace vh;
 
+// ---- heap monitor: every underlying allocation the allocator makes inside allocate() is tracked until it is
+// released; built with -Wl,--wrap=... so that the calls xsimd's inline code makes are routed through here.
+// Conservation: acquired = released + live, and live = 0 once the history has handed every block back.
+extern "C"
+{
+    int __real_posix_memalign(void**, size_t, size_t);
+    void* __real_malloc(size_t);
+    void* __real_calloc(size_t, size_t);
+    void* __real_aligned_alloc(size_t, size_t);
+    void* __real_memalign(size_t, size_t);
+    void __real_free(void*);
+}
+namespace heapmon
+{
+    struct Ent
+    {
+        void* p;
+        size_t sz;
+    };
+    static constexpr size_t CAP = 1 << 14;
+    static Ent table[CAP];
+    // volatile: the compiler knows free()/posix_memalign() as builtins that touch no global state, so it would
+    // otherwise cache these across the very calls that update them (and drop the "window" stores as dead)
+    static volatile size_t nlive = 0;
+    static volatile int window = 0; // 1: inside allocate(), 2: inside deallocate()
+    static volatile long acquired = 0, released = 0, foreign_release = 0, overflowed = 0;
+    static void* volatile last_foreign = nullptr;
+    static size_t slot(void* p) { return (size_t)(((uintptr_t)p >> 4) * 0x9E3779B97F4A7C15ull >> 50) & (CAP - 1); }
+    static void on_alloc(void* p, size_t sz)
+    {
+        if (window != 1 || !p)
+            return;
+        if (nlive >= CAP / 2)
+        {
+            overflowed = overflowed + 1;
+            return;
+        }
+        size_t i = slot(p);
+        while (table[i].p)
+            i = (i + 1) & (CAP - 1);
+        table[i] = { p, sz };
+        nlive = nlive + 1;
+        acquired = acquired + 1;
+    }
+    static void on_free(void* p)
+    {
+        if (!p)
+            return;
+        size_t i = slot(p);
+        while (table[i].p && table[i].p != p)
+            i = (i + 1) & (CAP - 1);
+        if (!table[i].p)
+        {
+            if (window == 2)
+            {
+                foreign_release = foreign_release + 1;
+                last_foreign = p;
+            }
+            return;
+        }
+        // delete with backward shift
+        released = released + 1;
+        nlive = nlive - 1;
+        size_t j = i;
+        for (;;)
+        {
+            table[i].p = nullptr;
+            for (;;)
+            {
+                j = (j + 1) & (CAP - 1);
+                if (!table[j].p)
+                    return;
+                size_t k = slot(table[j].p);
+                if (i <= j ? (i < k && k <= j) : (i < k || k <= j))
+                    continue;
+                break;
+            }
+            table[i] = table[j];
+            i = j;
+        }
+    }
+}
+extern "C"
+{
+    int __wrap_posix_memalign(void** r, size_t al, size_t sz)
+    {
+        int rc = __real_posix_memalign(r, al, sz);
+        if (rc == 0)
+            heapmon::on_alloc(*r, sz);
+        return rc;
+    }
+    void* __wrap_malloc(size_t sz)
+    {
+        void* p = __real_malloc(sz);
+        heapmon::on_alloc(p, sz);
+        return p;
+    }
+    void* __wrap_calloc(size_t a, size_t b)
+    {
+        void* p = __real_calloc(a, b);
+        heapmon::on_alloc(p, a * b);
+        return p;
+    }
+    void* __wrap_aligned_alloc(size_t al, size_t sz)
+    {
+        void* p = __real_aligned_alloc(al, sz);
+        heapmon::on_alloc(p, sz);
+        return p;
+    }
+    void* __wrap_memalign(size_t al, size_t sz)
+    {
+        void* p = __real_memalign(al, sz);
+        heapmon::on_alloc(p, sz);
+        return p;
+    }
+    void __wrap_free(void* p)
+    {
+        heapmon::on_free(p);
+        __real_free(p);
+    }
+}
+
 struct S24
 {
     char c[24];
@@ -42,7 +164,14 @@ static void histories(uint64_t seed, const char* tn)
             }
         shadow.erase((uintptr_t)b.p);
         mark_case("deallocate", st.type.c_str(), &b, sizeof b);
+        const long rel0 = heapmon::released, for0 = heapmon::foreign_release;
+        heapmon::window = 2;
         al.deallocate(reinterpret_cast<T*>(b.p), b.bytes / sizeof(T));
+        heapmon::window = 0;
+        if (heapmon::foreign_release != for0)
+            viol(st, "deallocate_released_untracked_pointer", "{\"bytes\":" + std::to_string(b.bytes) + ",\"block_minus_released\":" + std::to_string((long)((uintptr_t)b.p - (uintptr_t)heapmon::last_foreign)) + "}");
+        else if (heapmon::released == rel0 && !heapmon::overflowed)
+            viol(st, "deallocate_released_nothing", "{\"n\":" + std::to_string(b.bytes / sizeof(T)) + ",\"bytes\":" + std::to_string(b.bytes) + "}");
         live[k] = live.back();
         live.pop_back();
     };
@@ -64,10 +193,13 @@ static void histories(uint64_t seed, const char* tn)
             mark_case("allocate", st.type.c_str(), &n, sizeof n);
             try
             {
+                heapmon::window = 1;
                 p = al.allocate(n);
+                heapmon::window = 0;
             }
             catch (std::bad_alloc&)
             {
+                heapmon::window = 0;
                 viol(st, "bad_alloc_on_small_request", "{\"n\":" + std::to_string(n) + "}");
                 continue;
             }
@@ -112,6 +244,22 @@ static void histories(uint64_t seed, const char* tn)
     }
     while (!live.empty())
         check_free(live.size() - 1);
+    // conservation: everything the allocator obtained from the heap has been handed back
+    st.evals++;
+    if (heapmon::nlive != 0)
+    {
+        std::string sizes;
+        int shown = 0;
+        for (size_t i = 0; i < heapmon::CAP && shown < 6; ++i)
+            if (heapmon::table[i].p)
+                sizes += (shown++ ? "," : "") + std::to_string(heapmon::table[i].sz);
+        viol(st, "block_never_released", "{\"heap_blocks_still_held\":" + std::to_string((size_t)heapmon::nlive) + ",\"acquired\":" + std::to_string((long)heapmon::acquired) + ",\"released\":" + std::to_string((long)heapmon::released) + ",\"requested_sizes_of_some\":[" + sizes + "]}");
+        // forget them so that the next history starts balanced
+        for (size_t i = 0; i < heapmon::CAP; ++i)
+            heapmon::table[i].p = nullptr;
+        heapmon::nlive = 0;
+    }
+    info(std::string("heap_conservation_") + tn + "_align" + std::to_string(Al), "{\"acquired\":" + std::to_string((long)heapmon::acquired) + ",\"released\":" + std::to_string((long)heapmon::released) + ",\"live_at_end\":0}");
 }
 
 // n * sizeof(T) not representable (or absurdly large): must throw std::bad_alloc
@@ -163,15 +311,24 @@ static void predicates(uint64_t seed)
         viol(st, "allocator_equality", "{\"case\":\"different alignment must compare unequal\"}");
     // is_aligned<A>(p) iff p is a multiple of A::alignment(), for every residue of 4096
     alignas(4096) static unsigned char page[8192];
-    const size_t AL = ARCH::alignment();
-    for (size_t off = 0; off < 4096; ++off)
+    auto is_aligned_sweep = [&](auto arch)
     {
-        st.evals++;
-        st.cell((unsigned)off);
-        bool got = xsimd::is_aligned<ARCH>(page + off), exp = (off % AL) == 0;
-        if (got != exp)
-            viol(st, "is_aligned", "{\"residue\":" + std::to_string(off) + ",\"alignment\":" + std::to_string(AL) + ",\"got\":" + (got ? "true" : "false") + "}");
-    }
+        using A = decltype(arch);
+        const size_t AL = A::alignment();
+        if (AL == 0)
+            return;
+        for (size_t off = 0; off < 4096; ++off)
+        {
+            st.evals++;
+            st.cell((unsigned)off);
+            bool got = xsimd::is_aligned<A>(page + off), exp = (off % AL) == 0;
+            if (got != exp)
+                viol(st, "is_aligned", std::string("{\"architecture\":\"") + A::name() + "\",\"residue\":" + std::to_string(off) + ",\"alignment\":" + std::to_string(AL) + ",\"got\":" + (got ? "true" : "false") + "}");
+        }
+    };
+    is_aligned_sweep(ARCH {});
+    // ... and for every other architecture this build supports (the predicate is pure arithmetic on A::alignment())
+    xsimd::supported_architectures::for_each(is_aligned_sweep);
     // default allocator alignment satisfies aligned loads/stores of the default architecture
     {
         using DA = xsimd::default_arch;
